@@ -1,6 +1,6 @@
 (* C03: column layout and parity bookkeeping of detectors / observables (model: Model/Parse.v; the output
    order of build_sampling_graph is regenerated: gen/Gen_sampling_graph.v). *)
-From Coq Require Import ZArith QArith List Bool Arith Lia String.
+From Coq Require Import ZArith QArith List Bool Arith Lia String Permutation.
 Import ListNotations.
 Require Import TV.Base.EP TV.Model.Lane TV.Model.Parse TV.gen.Gen_sampling_graph.
 
@@ -60,12 +60,50 @@ Theorem parity_app l1 l2 r : parity (l1 ++ l2) r = xorb (parity l1 r) (parity l2
 Proof. unfold parity at 1. rewrite fold_left_app. rewrite parity_fold. fold (parity l1 r). reflexivity. Qed.
 Theorem parity_repeated i r : parity [i; i] r = false.
 Proof. unfold parity. cbn [fold_left]. destruct (nth i r false); reflexivity. Qed.
+(* a detector / observable is a set-like object over GF(2): the order of its targets is irrelevant, it is linear in the
+   measurement record, and flipping ONE record bit flips it exactly when that bit is targeted an odd number of times *)
+Lemma parity_cons i l r : parity (i :: l) r = xorb (nth i r false) (parity l r).
+Proof. change (i :: l) with ([i] ++ l). rewrite parity_app. unfold parity at 1. cbn [fold_left]. rewrite xorb_false_l. reflexivity. Qed.
+Theorem parity_perm l1 l2 r : Permutation l1 l2 -> parity l1 r = parity l2 r.
+Proof.
+  intro H. induction H as [|x l l' _ IH|x y l|l l' l'' _ IH1 _ IH2].
+  - reflexivity.
+  - rewrite !parity_cons, IH. reflexivity.
+  - rewrite !parity_cons. destruct (nth x r false), (nth y r false), (parity l r); reflexivity.
+  - rewrite IH1. exact IH2.
+Qed.
+Theorem parity_linear l r r1 r2 : (forall i, nth i r false = xorb (nth i r1 false) (nth i r2 false)) ->
+  parity l r = xorb (parity l r1) (parity l r2).
+Proof.
+  intro H. induction l as [|i l IH]; [reflexivity|]. rewrite !parity_cons, IH, H.
+  destruct (nth i r1 false), (nth i r2 false), (parity l r1), (parity l r2); reflexivity.
+Qed.
+Theorem parity_single_flip l j r r' : (forall i, nth i r' false = xorb (nth i r false) (Nat.eqb i j)) ->
+  parity l r' = xorb (parity l r) (Nat.odd (count_occ Nat.eq_dec l j)).
+Proof.
+  intro H. induction l as [|i l IH]; [reflexivity|]. rewrite !parity_cons, IH, H. cbn [count_occ].
+  destruct (Nat.eq_dec i j) as [E|E].
+  - subst i. rewrite Nat.eqb_refl, Nat.odd_succ, <- Nat.negb_odd.
+    destruct (nth j r false), (parity l r), (Nat.odd (count_occ Nat.eq_dec l j)); reflexivity.
+  - apply Nat.eqb_neq in E. rewrite E.
+    destruct (nth i r false), (parity l r), (Nat.odd (count_occ Nat.eq_dec l j)); reflexivity.
+Qed.
+Theorem det_outcome_linear s r r1 r2 : (forall i, nth i r false = xorb (nth i r1 false) (nth i r2 false)) ->
+  det_outcome s r = map (fun ab => xorb (fst ab) (snd ab)) (combine (det_outcome s r1) (det_outcome s r2)).
+Proof.
+  intro H. unfold det_outcome. induction (det_columns s) as [|c cs IH]; [reflexivity|].
+  cbn [map combine fst snd]. rewrite IH, (parity_linear c r r1 r2 H). reflexivity.
+Qed.
 Theorem obs_targets_accumulate dets pobs_ k recs k' nm ops :
   obs_targets (mkPS ops nm dets (pobs_ ++ [(k, recs)])) k' =
   obs_targets (mkPS ops nm dets pobs_) k' ++ (if Nat.eqb k k' then recs else []).
 Proof.
   unfold obs_targets. cbn [Parse.pobs]. rewrite flat_map_app. cbn [flat_map fst snd]. rewrite app_nil_r. reflexivity.
 Qed.
+(* the observable's parity does not depend on the order in which the OBSERVABLE_INCLUDE instructions appear *)
+Theorem obs_include_order_irrelevant ops nm dets pobs1 pobs2 k r : Permutation pobs1 pobs2 ->
+  parity (obs_targets (mkPS ops nm dets pobs1) k) r = parity (obs_targets (mkPS ops nm dets pobs2) k) r.
+Proof. intro H. apply parity_perm. unfold obs_targets. cbn [Parse.pobs]. apply Permutation_flat_map. exact H. Qed.
 (* a record lookback rec[-k] issued after nm measurements denotes measurement nm - k; out-of-range lookbacks are rejected *)
 Theorem lookback_resolution nm k : tvalue nm (TRec k) = if (Nat.leb 1 k && Nat.leb k nm)%bool then Some (nm - k)%nat else None.
 Proof. reflexivity. Qed.
